@@ -1,13 +1,57 @@
 (* Correspondence cases for C42: the drivers ran the real resolveSource / resolveDest. *)
 From Coq Require Import List ZArith Bool.
-Require Export MTX.Model.C42_Template.
+Require Export MTX.Model.C42_Template MTX.Model.C42_Life.
 Import ListNotations.
 Local Open Scope Z_scope.
 
 (* ok = what the driver's own copy of the guard says about the template (it decides the class of the case) *)
+(* Life-cycle cases: a history of one live path run on the real code, with what the consumers hold after
+   every step.
+   ho_id: handler identities numbered in order of first appearance; ho_held: what the handler connects to
+   (started handlers: the URL they announced; otherwise resolveDest on the handler's own fields);
+   ho_fresh: the real resolveDest on the template and groups that are current at that moment (oracle; None when
+   the driver cannot call it). ob_env: the G<n> entries of the real ExternalCmdEnv() as (n, value), ascending.
+   ob_src: the URLs that static source instances created during the step connected to. *)
+Record hobs := { ho_id : Z; ho_conf : dconf; ho_held : bytes; ho_fresh : option bytes }.
+Record obs := { ob_fwd : option (list hobs); ob_env : option (list (Z * bytes)); ob_src : list bytes }.
+
 Inductive case :=
 | Src (t : bytes) (ms : list bytes) (q : bytes) (ok : bool) (out : bytes)
-| Dst (t path : bytes) (ms : list bytes) (ok : bool) (out : bytes).
+| Dst (t path : bytes) (ms : list bytes) (ok : bool) (out : bytes)
+| Life (name : bytes) (ms0 : list bytes) (fwd0 : list dconf) (tmpl : option bytes) (ob0 : obs)
+       (steps : list (op * obs)).
+
+(* ---- model side of a life-cycle case ---- *)
+Fixpoint hobs_mm (name : bytes) (fms : list bytes) (hs : list fh) (l : list hobs) : bool :=
+  match hs, l with
+  | [], [] => false
+  | h :: hr, o :: lr =>
+      negb (fh_id h =? ho_id o) || negb (dconf_eqb (fh_conf h) (ho_conf o)) ||
+      negb (bytes_eqb (held name h) (ho_held o)) ||
+      match ho_fresh o with
+      | Some f => negb (bytes_eqb f (resolve_dest (d_dest (ho_conf o)) name fms))
+      | None => false
+      end || hobs_mm name fms hr lr
+  | _, _ => true
+  end.
+
+Fixpoint env_eqb (a b : list (Z * bytes)) : bool :=
+  match a, b with
+  | [], [] => true
+  | (i, x) :: a', (j, y) :: b' => (i =? j) && bytes_eqb x y && env_eqb a' b'
+  | _, _ => false
+  end.
+
+Definition obs_mm (s : pstate) (evs : list bytes) (ob : obs) : bool :=
+  match ob_fwd ob with Some l => hobs_mm (p_name s) (p_fm_ms s) (p_hs s) l | None => false end ||
+  match ob_env ob with Some e => negb (env_eqb e (hook_env (p_ms s))) | None => false end ||
+  negb (ms_eqb (ob_src ob) evs).
+
+Fixpoint life_mm (s : pstate) (steps : list (op * obs)) : bool :=
+  match steps with
+  | [] => false
+  | (o, ob) :: r => let '(s', evs) := step s o in obs_mm s' evs ob || life_mm s' r
+  end.
 
 Definition mismatch (c : case) : bool :=
   match c with
@@ -15,6 +59,8 @@ Definition mismatch (c : case) : bool :=
       negb (bytes_eqb out (resolve_source t ms q)) || negb (Bool.eqb ok (template_ok (src_cfg ms) t))
   | Dst t path ms ok out =>
       negb (bytes_eqb out (resolve_dest t path ms)) || negb (Bool.eqb ok (template_ok (dst_cfg ms) t))
+  | Life name ms0 fwd0 tmpl ob0 steps =>
+      let s := init name ms0 fwd0 tmpl in obs_mm s [] ob0 || life_mm s steps
   end.
 
 (* The property on the observed output: it is the single left-to-right substitution. Path names are validated
@@ -25,8 +71,67 @@ Definition valid_name_byte (c : Z) : bool :=
 
 Definition values_valid (l : list bytes) : bool := forallb (forallb valid_name_byte) l.
 
+(* ---- the property on a life-cycle case: what is current is read off the history itself (the last groups and the
+   last forward list handed in); every consumer must hold the substitution of its current template with them.
+   No life-cycle model function is used. *)
+Fixpoint fwd_bad (name : bytes) (ms : list bytes) (fwd : list dconf) (l : list hobs) : bool :=
+  match fwd, l with
+  | [], [] => false
+  | d :: fr, o :: lr =>
+      negb (dconf_eqb (ho_conf o) d) ||
+      match ho_fresh o with Some f => negb (bytes_eqb (ho_held o) f) | None => false end ||
+      (values_valid (name :: ms) && template_ok (dst_cfg ms) (d_dest d) &&
+       negb (bytes_eqb (ho_held o) (single_pass_dest (d_dest d) name ms))) ||
+      fwd_bad name ms fr lr
+  | _, _ => true
+  end.
+
+(* exactly G1..Gn with n = number of groups, G<k> = the k-th group *)
+Fixpoint env_bad (k : nat) (groups : list bytes) (e : list (Z * bytes)) : bool :=
+  match groups, e with
+  | [], [] => false
+  | g :: gr, (i, v) :: er => negb (i =? Z.of_nat k) || negb (bytes_eqb v g) || env_bad (S k) gr er
+  | _, _ => true
+  end.
+
+Record spst := { sp_ms : list bytes; sp_fwd : list dconf; sp_alive : bool; sp_q : bytes; sp_last : option bytes }.
+
+Definition sp_step (sp : spst) (o : op) (ob : obs) : spst :=
+  let ms := match o with OReload (Some m) _ => m | _ => sp_ms sp end in
+  let fwd := match o with OReload _ f => f | _ => sp_fwd sp end in
+  let alive := match o with
+               | OSrcStart _ | OSrcRetry => true
+               | OSrcStop | OSrcFail => false
+               | _ => sp_alive sp
+               end in
+  let q := match o with OSrcStart q => q | _ => sp_q sp end in
+  {| sp_ms := ms; sp_fwd := fwd; sp_alive := alive; sp_q := q;
+     sp_last := match rev (ob_src ob) with v :: _ => Some v | [] => sp_last sp end |}.
+
+Definition obs_bad (name : bytes) (tmpl : option bytes) (sp : spst) (ob : obs) : bool :=
+  match ob_fwd ob with Some l => fwd_bad name (sp_ms sp) (sp_fwd sp) l | None => false end ||
+  match ob_env ob with Some e => env_bad 1 (tl (sp_ms sp)) e | None => false end ||
+  match tmpl with
+  | Some t =>
+      sp_alive sp && values_valid (sp_ms sp) && template_ok (src_cfg (sp_ms sp)) t &&
+      match sp_last sp with
+      | Some v => negb (bytes_eqb v (single_pass_source t (sp_ms sp) (sp_q sp)))
+      | None => true
+      end
+  | None => false
+  end.
+
+Fixpoint life_bad (name : bytes) (tmpl : option bytes) (sp : spst) (steps : list (op * obs)) : bool :=
+  match steps with
+  | [] => false
+  | (o, ob) :: r => let sp' := sp_step sp o ob in obs_bad name tmpl sp' ob || life_bad name tmpl sp' r
+  end.
+
 Definition spec_fail (c : case) : bool :=
   match c with
   | Src t ms q ok out => values_valid ms && negb (bytes_eqb out (single_pass_source t ms q))
   | Dst t path ms ok out => values_valid (path :: ms) && negb (bytes_eqb out (single_pass_dest t path ms))
+  | Life name ms0 fwd0 tmpl ob0 steps =>
+      let sp := {| sp_ms := ms0; sp_fwd := fwd0; sp_alive := false; sp_q := []; sp_last := None |} in
+      obs_bad name tmpl sp ob0 || life_bad name tmpl sp steps
   end.
